@@ -373,7 +373,8 @@ func CheckC06(e *Env) (int, error) {
 		"cold_start_seam_unavailable": seamUnavailable,
 		"calls_after_a_source_panic_that_never_returned_not_judged": postPanicHang,
 		"sim_steps_total":       tot.Reads,
-		"sim_time_note":         "the system has no clock; simulated time is counted in device reads",
+		"sim_time_note":         "the unchanged tree reads no clock, so simulated time is counted in device reads; a tree that imports \"time\" gets Now/Since/Until from the clock seam, which the simulator moves forward in jumps (reads of the device that take 0.15 s to 1 h of simulated time)",
+		"clock_seam_files":      e.ClockFiles("go"),
 		"faults_fired":          tot.Fired,
 		"probes":                tot.Probes,
 		"relaxations_applied":   tot.Relaxed,
